@@ -641,8 +641,8 @@ func (self *_Assembler) skip_key_value() {
 	// match char ':'
 	self.lspace("_global_1")
 	self.Emit("CMPB", jit.Sib(_IP, _IC, 1, 0), jit.Imm(':'))
-	self.Sjmp("JNE", _LB_parsing_error_v) // JNE     _parse_error_v
-	self.Emit("ADDQ", jit.Imm(1), _IC)    // ADDQ    $1, IC
+	self.Sjmp("JNE", _LB_char_0_error) // JNE     _char_0_error
+	self.Emit("ADDQ", jit.Imm(1), _IC) // ADDQ    $1, IC
 	self.lspace("_global_2")
 	// skip the value
 	self.call_sf(_F_skip_one)            // CALL_SF skip_one
